@@ -104,9 +104,10 @@ def generator_rule(ctx, f, model):
 def check(ctx):
     # ---- R08-0 the primitives ------------------------------------------------------------------------------------------
     cp = ctx.fn("AsyncIOBackend.checkpoint", A)
-    s = ctx.sites(cp, "await sleep(0)")
-    ctx.ob("R08-0", cp, "checkpoint() is `await sleep(0)` (cancel point + yield)", len(s) == 1 and len(_real_body(cp.node)) == 1,
-           detail="" if s else "AsyncIOBackend.checkpoint no longer awaits sleep(0)", by=("await sleep(0)",))
+    dominates_all_exits(ctx, "R08-0", cp, "await sleep(0)", "checkpoint() awaits sleep(0) on every path (cancel point + yield)")
+    bad = [n for n in own_walk(cp.node) if isinstance(n, (ast.With, ast.AsyncWith, ast.Try))]
+    ctx.ob("R08-0", cp, "checkpoint() does not shield or catch around its sleep(0)", not bad, detail="" if not bad else f"`{norm(bad[0])}` wraps the checkpoint's sleep",
+           by=("plain await",))
     csc = ctx.fn("AsyncIOBackend.cancel_shielded_checkpoint", A)
     s = ctx.sites(csc, "await sleep(0)")
     ok = len(s) == 1 and lexically_inside(s[0][0], is_shield_with, stop=csc.node)
@@ -120,7 +121,7 @@ def check(ctx):
     for nm in ("checkpoint", "checkpoint_if_cancelled", "cancel_shielded_checkpoint"):
         f = ctx.fn(nm, "lowlevel.py")
         s = ctx.sites(f, f"await get_async_backend().{nm}()")
-        ctx.ob("R08-0", f, f"lowlevel.{nm} delegates to the backend", len(s) == 1 and len(_real_body(f.node)) == 1,
+        ctx.ob("R08-0", f, f"lowlevel.{nm} delegates to the backend", len(s) == 1,
                detail="" if s else f"lowlevel.{nm} does not await get_async_backend().{nm}()", by=("delegation",))
 
     # ---- R08-a typestate per operation --------------------------------------------------------------------------------
